@@ -70,3 +70,22 @@ def emit_findings(ctx, ext):
     q = [k["lean"] for k in C.load_known() if k["property"] == "C17" and k.get("status") == "known" and "lean" in k]
     f.list_def("c17KnownQuant", "Nat × Nat", q)
     lean_emit.write_if_changed(C.GEN + "/Findings.lean", f.text())
+
+
+def wrapper_forwarding(ctx, T):
+    """Generated wrappers `type_x(args) = self.type_x_id(None, args)`: the Lean method table records only the callee (the
+    wrapper's call is modelled as the callee's with `None`), so that the arguments are forwarded *in order* is an obligation of
+    its own (C06: the call's arguments in grammar order; C13: a request without an explicit id is the same request as the `_id`
+    form with `None`). A wrapper that forwards in another order is shown on the implementation: the two forms of one request with
+    pairwise distinct arguments must return the same id."""
+    bad = [m for m in T.get("builder", []) if m["kind"] == "wrapper" and m["args"] != [p[0] for p in m["params"]]]
+    ctx.oblige("wrappers: every generated `type_x(args)` forwards its parameters to `type_x_id(None, args)` in order", not bad)
+    for m in bad:
+        args = [str(11 + 2 * k) for k in range(len(m["params"]))]
+        req = "build " + m["name"] + "".join("/" + a for a in args) + " " + m["callee"] + "/-" + "".join("/" + a for a in args)
+        resp = C.run_impl(ctx, [req])[0]
+        outs = resp.split(" | ")[0].split(" ")[1:]
+        differ = len(outs) == 2 and outs[0] != outs[1]
+        ctx.issue(f"wrapper:{m['name']}", f"Builder::{m['name']} forwards {m['args']} to {m['callee']} (parameters are {[p[0] for p in m['params']]}): "
+                  + ("the two forms of one request return different ids" if differ else "argument order differs"),
+                  witness={"request": req, "implementation": resp}, found_input=differ, kind="oracle")
